@@ -127,7 +127,9 @@ def gen_library_spec(rnd, prior_spec, n=None, allow_f4=True):
         "dtype": dtype,
         "duplicates": dups,
         "gen_seed": rnd.getrandbits(48),
-        "jitter": rnd.choice(["zero", "zero", "sampled"]),
+        # float32 libraries keep s = 0: a float32 column converted to the data's RV unit is only float32-exact and
+        # the two conversion routes (pack vs read_batch) may legitimately differ there (DESIGN 2.7)
+        "jitter": "zero" if dtype == "f4" else rnd.choice(["zero", "zero", "sampled"]),
         "with_ln_prior": True,
     }
 
